@@ -9,12 +9,17 @@ from . import sched
 
 
 def jobs(tier):
-    return sched.jobs_c03(tier)
+    js = sched.jobs_c03(tier)
+    from . import project
+    js += project.jobs('C03', tier)
+    return js
 
 
 BOUNDS = {'quick': 'all digraphs (self loops included) on <=3 files chosen lazily along the run, input lists with duplicates, output-name and '
                    './ spellings and directories, recursive and non-recursive scanning, every completion order',
           'thorough': 'digraphs on 4 files with out-degree <=2'}
+from . import project as _project
+BOUNDS = {k: v + _project.bounds_note('C03', k) for k, v in BOUNDS.items()}
 ASSUMPTIONS = ['as C02; aliases are spellings that canonicalize to the same path in the FS model (no symlinks)',
                'termination = the coordinator loop exits within the step bound on every schedule of the model (real time is not modelled)']
 COVERS_REQUIRED = ['acyclic', 'cyclic']
